@@ -109,9 +109,12 @@ impl BackwardEngine {
         let mut goal = QueryParser::parse(query_str)
             .map_err(|e| crate::errors::RuleEngineError::ParseError { message: e })?;
 
-        // Check cache if memoization enabled
+        // Check cache if memoization enabled. The verdict depends on the facts the query is
+        // asked on (and on max_solutions, which query_aggregate changes in place), so they
+        // are part of the key.
+        let cache_key = self.memo_key(query_str, facts);
         if self.config.enable_memoization {
-            if let Some(cached) = self.goal_manager.is_cached(query_str) {
+            if let Some(cached) = self.goal_manager.is_cached(&cache_key) {
                 return Ok(if cached {
                     QueryResult::success(
                         goal.bindings.to_map(), // Convert Bindings to HashMap
@@ -159,7 +162,7 @@ impl BackwardEngine {
         // Cache result if enabled
         if self.config.enable_memoization {
             self.goal_manager
-                .cache_result(query_str.to_string(), search_result.success);
+                .cache_result(cache_key, search_result.success);
         }
 
         // Build query result
@@ -181,6 +184,18 @@ impl BackwardEngine {
         } else {
             QueryResult::failure(self.find_missing_facts(&goal), stats)
         })
+    }
+
+    /// Memoization key: the query together with max_solutions and a canonical
+    /// (sorted by name) rendering of the facts it is asked on.
+    fn memo_key(&self, query_str: &str, facts: &Facts) -> String {
+        let mut entries: Vec<(String, crate::types::Value)> =
+            facts.get_all_facts().into_iter().collect();
+        entries.sort_by(|a, b| a.0.cmp(&b.0));
+        format!(
+            "{}\u{0}{}\u{0}{:?}",
+            query_str, self.config.max_solutions, entries
+        )
     }
 
     /// Find all candidate rules that could prove a goal
